@@ -1,8 +1,20 @@
 from functools import lru_cache
+import weakref
 
 from ..util import np
 import numpy.typing as npt
 from ..raggedshape import RaggedShape, RaggedView2, RaggedView, native_extract_segments, c_extract_segments
+
+
+# Arrays that were selected lazily (a view description plus the *source's* buffer) and have not been
+# materialised yet, per buffer: id(owner of the buffer) -> {id(array): array} (weak values).  A write to the buffer
+# through any ragged array first materialises them, so that a selection has one definite content.
+_lazy_selections = {}
+
+
+def _buffer_owner(data):
+    base = getattr(data, "base", None)
+    return data if base is None else base
 
 
 class RaggedBase:
@@ -40,7 +52,18 @@ class RaggedBase:
 
     def _change_view(self, new_view):
         ret = self._cls(self.__data, new_view)
+        if len(_lazy_selections) > 1000:  # forget buffers whose selections are all gone
+            for key in [k for k, v in _lazy_selections.items() if not len(v)]:
+                del _lazy_selections[key]
+        _lazy_selections.setdefault(id(_buffer_owner(self.__data)), weakref.WeakValueDictionary())[id(ret)] = ret
         return ret
+
+    def _detach_lazy_selections(self):
+        """Materialise the lazily selected arrays that still share this array's buffer (before a write)"""
+        key = id(_buffer_owner(self.__data))
+        for selection in list(_lazy_selections.get(key, {}).values()):
+            selection.ravel()
+        _lazy_selections.pop(key, None)  # only once all of them have their own buffer
 
     def _flatten_myself(self):
         #assert not self.is_contigous
